@@ -83,7 +83,7 @@ class SobolevSpace:
                 "Unable to test for inclusion of a SobolevSpace in another SobolevSpace. "
                 "Did you mean to use <= instead?"
             )
-        return other.sobolev_space == self or self in other.sobolev_space.parents
+        return other.sobolev_space <= self
 
     def __lt__(self, other):
         """In common with intrinsic Python sets, < indicates "is a proper subset of"."""
